@@ -127,10 +127,10 @@ func c19Attempt(b *c19Broker, raw []byte, v mw.Version, id, sessionID string) (*
 				s, _ := b.Srv.ClientService().GetSession(sessionID)
 				registered = s != nil
 			}
-			wait := 50 * time.Millisecond
-			if registered {
-				wait = fixture.DefaultWait
-			}
+			// The decision has been made; the CONNACK (or the close) follows, how soon depends on the load of the
+			// machine only: a short wait here turned slowness into "no answer" (false alarm seen in a 16-shard run).
+			wait := fixture.DefaultWait
+			_ = registered
 			p, err := cl.WaitType(mw.CONNACK, wait)
 			switch {
 			case err == nil:
